@@ -155,6 +155,8 @@ pub struct DataChannel {
     tx: Mutex<Option<mpsc::UnboundedSender<DataChannelEvent>>>,
     rx: TokioMutex<mpsc::UnboundedReceiver<DataChannelEvent>>,
     pub(crate) reassembly_buffer: Mutex<BytesMut>,
+    /// TSN the next fragment of the message under reassembly must carry.
+    pub(crate) reassembly_next_tsn: Mutex<Option<u32>>,
     pub(crate) send_lock: TokioMutex<()>,
 }
 
@@ -175,6 +177,7 @@ impl DataChannel {
             tx: Mutex::new(Some(tx)),
             rx: TokioMutex::new(rx),
             reassembly_buffer: Mutex::new(BytesMut::new()),
+            reassembly_next_tsn: Mutex::new(None),
             send_lock: TokioMutex::new(()),
         }
     }
